@@ -68,6 +68,7 @@ type NodeSpec struct {
 	PushOnHandshake   bool   `json:"push_on_handshake,omitempty"`   // unsolicited pushes go out right after the handshake, not after the first getheaders answer
 	NotFullNode       bool   `json:"not_full_node,omitempty"`       // the node does not advertise NODE_NETWORK (it is no candidate to sync from)
 	RestartOnDrop     bool   `json:"restart_on_drop,omitempty"`     // the scripted loss of the first connection takes every other open connection of the node with it (the node restarts)
+	ProtoVer          uint32 `json:"proto_ver,omitempty"`           // protocol version the node reports (0 = 70013); below 70012 there is no sendheaders: new blocks are announced by inv
 	IgnoreStop        bool   `json:"ignore_stop,omitempty"`         // answers do not end at the stop hash (all that remain, or the cap)
 	SilentFirst       bool   `json:"silent_first,omitempty"`        // the first connection never answers getheaders, later ones do
 	OffendOnce        bool   `json:"offend_once,omitempty"`         // forbidden: after it has delivered the forbidden header once the node follows the honest chain
@@ -496,6 +497,7 @@ func Execute(s *Scenario, dir string) (res *Result) {
 			n.DisconnectAtMsg = ns.DisconnectAtMsg
 			n.UnknownFirst, n.PushOnHandshake = ns.UnknownFirst, ns.PushOnHandshake
 			n.RestartOnDrop = ns.RestartOnDrop
+			n.ProtoVer = ns.ProtoVer
 			if ns.NotFullNode {
 				n.Services = wire.SFNodeBloom
 			}
